@@ -136,7 +136,11 @@ static DOCS: [DocKind; 9] = [
 ];
 
 /// write a paragraph: one "Name: value" per pair, continuation lines indented by one blank
-const NEXT_LINE_FIELDS: [&str; 14] = ["Package-List", "Files", "Checksums-Sha1", "Checksums-Sha256", "Checksums-Sha512", "MD5Sum", "SHA1", "SHA256", "SHA512", "Binary", "Environment", "Sources", "Binaries", "Copyright"];
+const NEXT_LINE_FIELDS: [&str; 24] = [
+    "Package-List", "Files", "Checksums-Sha1", "Checksums-Sha256", "Checksums-Sha512", "MD5Sum", "SHA1", "SHA256", "SHA512", "Binary", "Environment", "Sources", "Binaries", "Copyright",
+    // folded lists that are often written one item per line
+    "Build-Depends", "Build-Depends-Indep", "Build-Conflicts", "Depends", "Recommends", "Suggests", "Breaks", "Uploaders", "Tag", "Installed-Build-Depends",
+];
 
 pub fn write_para(r: &mut Rng, pairs: &[(String, String)], comments: bool, out: &mut String) {
     for (k, v) in pairs {
@@ -239,6 +243,14 @@ fn norm_value(v: &str) -> Vec<String> {
     v.split('\n').map(|l| l.trim_matches([' ', '\t']).to_string()).filter(|l| !l.is_empty()).collect()
 }
 
+/// the lines of a value as the typed value carries them: an empty line (e.g. a leading one) is not dropped
+fn carried_lines(v: &str) -> Vec<String> {
+    if v.is_empty() {
+        return vec![];
+    }
+    v.split('\n').map(|l| l.trim_matches([' ', '\t']).to_string()).collect()
+}
+
 /// the role order in which the typed value lists its paragraphs
 fn role_order(d: &DocKind, paras: &[(usize, Vec<(String, String)>)]) -> Vec<usize> {
     let mut idx: Vec<usize> = (0..paras.len()).collect();
@@ -318,7 +330,8 @@ fn documents_lane(ctx: &mut Ctx, idx: u64) {
             })
             .filter(|(k, _)| known.contains(&k.as_str()))
             .collect();
-        let mut carried: Vec<(String, Vec<String>)> = views[vi].iter().map(|(k, v)| (k.clone(), norm_value(v))).collect();
+        // (a Signed-By key block is a value of its own type, whose text form starts on the line after the name)
+        let mut carried: Vec<(String, Vec<String>)> = views[vi].iter().map(|(k, v)| (k.clone(), carried_lines(if k == "Signed-By" { v.strip_prefix('\n').unwrap_or(v) } else { v }))).collect();
         let mut shown_sorted = shown.clone();
         // the struct lists fields in declaration order: compare as sets of (name, value)
         carried.sort();
